@@ -57,7 +57,11 @@ func batchPool(r *hx.Rng, code uint64, nDIDs int, big bool) [][]*batchOp {
 			patches = genPatches(r, 2, ids)
 		}
 		origin := genOrigin(r)
-		cd, cr, err := NewCDid(r.Split(fmt.Sprint("d", d)), code, []string{ref.KeyTypes[d%5]}, 300, false, patches, nil, origin, "")
+		typ := ""
+		if d%3 == 1 {
+			typ = fmt.Sprintf("t%d", d) // optional suffix-data type: part of the suffix and of the request that must read back
+		}
+		cd, cr, err := NewCDid(r.Split(fmt.Sprint("d", d)), code, []string{ref.KeyTypes[d%5]}, 300, false, patches, nil, origin, typ)
 		if err != nil {
 			panic(err)
 		}
